@@ -5,6 +5,7 @@ CONSTANTS
   Calls <- Calls_3same
   ChanCap = 2
   MaxTasks = 3
+  Cancellable = {}
   RegisterFirst = TRUE
 INVARIANTS
   ExportPrefix
